@@ -234,11 +234,26 @@ func tail(s string, n int) string {
 // writeDriver writes p<i>/zz_verif_driver.go: the registry of value types, unions, enums and rand functions.
 func (s *Session) writeDriver(pb *ProgBuild, pkg *packages.Package, withRand bool) {
 	scope := pkg.Types.Scope()
+	// imported packages may share a name: every path gets its own alias
+	aliases := map[string]string{}
+	usedAlias := map[string]bool{"reflect": true, "zengine": true}
+	aliasOf := func(p *types.Package) string {
+		if a, ok := aliases[p.Path()]; ok {
+			return a
+		}
+		a := p.Name()
+		for n := 2; usedAlias[a]; n++ {
+			a = fmt.Sprintf("%s%d", p.Name(), n)
+		}
+		usedAlias[a] = true
+		aliases[p.Path()] = a
+		return a
+	}
 	qual := func(p *types.Package) string {
 		if p == pkg.Types {
 			return ""
 		}
-		return p.Name()
+		return aliasOf(p)
 	}
 	imports := map[string]bool{}
 	typeExpr := func(t types.Type) string {
@@ -324,7 +339,7 @@ func (s *Session) writeDriver(pb *ProgBuild, pkg *packages.Package, withRand boo
 					if !c.Exported() {
 						continue
 					}
-					ref = p.Name() + "." + c.Name()
+					ref = aliasOf(p) + "." + c.Name()
 					imports[p.Path()] = true
 				}
 				all = append(all, ref)
@@ -343,7 +358,7 @@ func (s *Session) writeDriver(pb *ProgBuild, pkg *packages.Package, withRand boo
 	_ = scope
 	var impB strings.Builder
 	for _, i := range synth.SortedKeys(imports) {
-		fmt.Fprintf(&impB, "\t%q\n", i)
+		fmt.Fprintf(&impB, "\t%s %q\n", aliases[i], i)
 	}
 	src := fmt.Sprintf(`package %s
 
